@@ -22,6 +22,10 @@ type suiteFn func(d *leandrv.Driver, r *rng.R, res *report.Result, thorough bool
 
 var suites = map[string]suiteFn{
 	"mem-recordstore":  adapters.RecordStoreSuite(adapters.MemRecordStore, "C17"),
+	"sql-recordstore":  adapters.RecordStoreSuiteOpt(adapters.SQLRecordStore, adapters.RSOpts{Prop: "C18", Suite: "sql-recordstore", UnorderedOutbox: true, CorpusProps: []string{"C17", "C18"}}),
+	"sql-timeoutstore": adapters.TimeoutStoreSuite(adapters.SQLTimeoutStore, "C18", "sql-timeoutstore"),
+	"sql-atomic":       adapters.SQLAtomicSuite,
+	"sql-where":        adapters.SQLWhereSuite,
 	"mem-streamer":     adapters.StreamerSuite,
 	"mem-connector":    adapters.ConnectorSuite,
 	"mem-timeoutstore": adapters.TimeoutStoreSuite(adapters.MemTimeoutStore, "C12", "mem-timeoutstore"),
